@@ -68,6 +68,18 @@ pub(crate) fn bbox_write_z_range_to<PointType: HasZ, W: Write>(
     Ok(())
 }
 
+/// Largest number of elements for which memory is reserved before they are read.
+///
+/// A count declared by a file is not backed by data until that data has been read:
+/// a few bytes can declare billions of points. Vectors are pre-sized for at most
+/// this many elements and grow as the elements really arrive.
+pub(crate) const MAX_PREALLOCATED_ELEMENTS: usize = 1024;
+
+/// Capacity to reserve for `declared_count` elements that are still to be read
+pub(crate) fn capacity_for(declared_count: i32) -> usize {
+    (declared_count.max(0) as usize).min(MAX_PREALLOCATED_ELEMENTS)
+}
+
 pub(crate) fn read_xy_in_vec_of<PointType, T>(
     source: &mut T,
     num_points: i32,
@@ -76,7 +88,7 @@ where
     PointType: HasMutXY + Default,
     T: Read,
 {
-    let mut points = Vec::<PointType>::with_capacity(num_points as usize);
+    let mut points = Vec::<PointType>::with_capacity(capacity_for(num_points));
     for _ in 0..num_points {
         let mut p = PointType::default();
         *p.x_mut() = source.read_f64::<LittleEndian>()?;
@@ -110,7 +122,7 @@ pub(crate) fn read_parts<T: Read>(
     source: &mut T,
     num_parts: i32,
 ) -> Result<Vec<i32>, std::io::Error> {
-    let mut parts = Vec::<i32>::with_capacity(num_parts as usize);
+    let mut parts = Vec::<i32>::with_capacity(capacity_for(num_parts));
     for _ in 0..num_parts {
         parts.push(source.read_i32::<LittleEndian>()?);
     }
@@ -208,7 +220,7 @@ impl<'a, PointType: Default + HasMutXY, R: Read> MultiPartShapeReader<'a, PointT
             return Err(invalid_data("negative number of parts or points"));
         }
         let parts_array = read_parts(source, num_parts)?;
-        let parts = Vec::<Vec<PointType>>::with_capacity(num_parts as usize);
+        let parts = Vec::<Vec<PointType>>::with_capacity(capacity_for(num_parts));
         Ok(Self {
             num_points,
             num_parts,
